@@ -114,10 +114,13 @@ class RepoIndex:
     def module(self, rel):
         return self.modules[rel]
 
+    prefer_module = None
+
     def get_class(self, name, prefer_module=None):
         lst = self.classes.get(name)
         if not lst:
             return None
+        prefer_module = prefer_module or self.prefer_module
         if prefer_module is not None:
             for c in lst:
                 if c.module is prefer_module:
